@@ -26,6 +26,10 @@ def gen(rnd, n_projects, schedules):
             if rnd.random() < 0.5:
                 star = rnd.random() < 0.6
                 calls.append({"api": "get_tag_list", "program": "*" if star else None, "view": 1, "intent": {"allprogs": 1 if star else 0}})
+            progs = [x["name"][len("Program:"):] for x in proj["symbols"] if x["kind"] == "program"]
+            if progs and rnd.random() < 0.4:                  # the tags of one named program only
+                pn = rnd.choice(progs)
+                calls.append({"api": "get_tag_list", "program": pn, "view": 1, "intent": {"allprogs": 0, "named": [ord(ch) for ch in pn]}})
             calls.append({"api": "close"})
             scs.append({"id": "up%d_%d" % (i, k), "family": "upload" + ("-micro800" if micro else ""),
                         "target": {"policy": rnd.choice(["LargeOK", "LargeRefused"]), "identity": ident, "pages": pages, "caps": caps},
